@@ -9,7 +9,15 @@ def rules(t):
     out = []
     pm = t.fn("ReceiveChannelReliable::process_message")
     r = RuleResult("C02.a", "unordered: a message is buffered only if its id is not in received_messages, and the id is recorded", floor=2)
-    ins = [g for g in t.effects("messages", {"insert"}, pm) if "VacantEntry" not in callee_name(g.node)]
+    # the Unordered arm of the match on reliable_order
+    names = t.variants_of("channel::reliable::ReliableOrder")
+    unordered_region = None
+    for br in t.branches(pm):
+        if br["kind"] == "discr" and fmt(br["on"]).endswith("reliable_order"):
+            tgts = [tgt for v, tgt in br["targets"].items() if names.get(v) == "Unordered"] or ([br["otherwise"]] if "Unordered" not in [names.get(v) for v in br["targets"]] else [])
+            others = [tgt for v, tgt in br["targets"].items() if names.get(v) != "Unordered"] + ([br["otherwise"]] if "Unordered" in [names.get(v) for v in br["targets"]] else [])
+            if tgts: unordered_region = pm.reachable_from(tgts) - set().union(*[pm.reachable_from([o]) for o in others if o not in tgts]) if others else pm.reachable_from(tgts)
+    ins = [g for g in t.effects("messages", {"insert"}, pm) if "VacantEntry" not in callee_name(g.node) and (unordered_region is None or g.bb in unordered_region)]
     rec = list(t.effects("received_messages", {"insert"}, pm))
     for g in ins:
         r.site(g)
@@ -29,8 +37,17 @@ def rules(t):
     for g in t.effects("received_messages", SHRINK):
         r.site(g)
         if g.fn is not rm: r.bad(f"{g.fn.path}|writer", g, "received_messages shrunk outside receive_message"); continue
+        if len(g.node["args"]) < 2:      # clear() / retain(..): the whole set is changed at once
+            r.bad(f"bulk|{method_of(callee_name(g.node))}", g, f"received_messages is changed wholesale by {method_of(callee_name(g.node))}(): ids that were received but not yet passed by the cursor are forgotten"); continue
         if not t.is_field(t.arg(g, 1), "oldest_pending_message_id"): r.bad("key", g, "removed id is not the cursor")
         ok = any(t.rooted_at_field(br["cond"][2][0], "received_messages") and t.is_field(br["cond"][2][1], "oldest_pending_message_id") and t.edge_dominates(rm, br["t_edge"], g.bb) for br in t.find_callcond(rm, r"BTreeSet.*::contains$"))
+        if not ok:
+            # `while received_messages.remove(&cursor) { cursor += 1 }`: the removal's own answer is the test; the cursor only advances on its true edge
+            mine = [br for br in t.find_callcond(rm, r"BTreeSet.*::remove$") if br["bb"] == g.node.get("target") or norm(br["raw"]) == norm(rm.call_origin(g.node))]
+            adv = list(t.stores(RR, "oldest_pending_message_id", rm))
+            lp = innermost_loop(rm, g.bb)
+            inloop = [s_ for s_ in adv if lp and s_.bb in lp[1]]
+            ok = bool(mine) and bool(inloop) and all(any(t.edge_dominates(rm, br["t_edge"], s_.bb) for br in mine) for s_ in inloop)
         if not ok: r.bad("guard", g, "removal not guarded by contains(cursor)")
     pops = list(t.effects("messages", {"pop_first"}, rm))
     for p_ in pops:
